@@ -193,6 +193,10 @@ func sortStrings(xs []string) {
 	}
 }
 
+// ExtraStreams lets a property's own driver (harness/cmd/<id>) add case streams of its own to the run of that
+// property: the function is called with the run's output and root PRNG before the cases are flushed.
+var ExtraStreams = map[string]func(out *u.Out, root *u.Rng, n int) error{}
+
 // Run generates n clusters, runs them and writes cases for the Run module of prop.
 func Run(dir, prop string, seed uint64, n int) error {
 	caseType, wrap := "ccase", "%s"
@@ -307,6 +311,11 @@ func Run(dir, prop string, seed uint64, n int) error {
 		out.Stats["rule"] = out.Stats["rule"].(string) + " Plus the same kind of clusters with injected failures of the k-th Bind / Evict Cache call (k < 8, each with probability 1/3 resp. 1/5): only the device monitor is evaluated on them. Plus function-level decision cases: generated nodes (1-4 GPUs, up to 6 shared / whole-GPU occupants running, terminating, bound or nominated) and a pending fractional / multi-fraction / gpu-memory task; the real GetNodePreferableGpuForSharing is called with the candidate list in pack, spread or shuffled order."
 	case "C03":
 		out.Stats["rule"] = out.Stats["rule"].(string) + " Plus function-level gang cases: generated pod groups (1-3 pod sets, 0-4 pods each in any status, real or simulated allocation) on which the real GetTasksToAllocate / GetTasksToEvict / readiness getters are called with the production pod-set order. Plus attempt cases: one pending gang (1-3 pod sets, minimum 1-3 each, some pods already running, one pod set in three with a terminating pod of its own, single-set gangs with 0-2 surplus pods, one in five multi-set gangs not ready) on 1-3 nodes of 1-4 GPUs partly held by running or terminating filler pods, through the real allocate action; the model's allocate loop is driven by the observed Bind / TaskPipelined calls per pod set and must end in the observed statuses."
+	}
+	if extra := ExtraStreams[prop]; extra != nil {
+		if err := extra(out, root, n); err != nil {
+			return err
+		}
 	}
 	return out.Flush()
 }
